@@ -10,7 +10,7 @@ from .. import gen_simfile as G
 ID = "C16"
 N_QUICK, N_THOROUGH = 1200, 60000
 RULE = ("SM sources built as for C01 carrying OFFSET, BPMS, STOPS (DELAYS/WARPS optional, ANIMATIONS alias, SSC-only keys, negative BPM/stop values), 0..4 "
-        "charts; with/without caller templates (blank-derived with extra properties and with charts; short templates holding only a few keys; chart template, blank-derived or short, ending with its note data); the SM corpus file; compares "
+        "charts; with/without caller templates (blank-derived with extra properties and with charts; short templates holding only a few keys, with, without or not starting with a version tag; chart template, blank-derived or short, ending with its note data); the SM corpus file; compares "
         "the converted simfile or the raised error (key order included); oracle: properties kept, template fill and nothing else (key sets), charts, TimingData equal (simfile and per chart), reload, "
         "inputs unmodified and no shared mutable object (mutate the result, re-snapshot the inputs); non-trivial = at least one chart")
 assumptions = ["a template supplies no non-empty chart timing value the source lacks (true of the blank templates; caller templates in the generator respect it)"]
